@@ -6,6 +6,7 @@ use serde_json::Value;
 
 pub mod c01;
 pub mod c02;
+pub mod c03;
 pub mod c05;
 pub mod c10;
 pub mod c14;
@@ -17,6 +18,7 @@ pub fn run(prop: &str, cfg: &Cfg) -> Outcome {
     match prop {
         "C01" => c01::run(cfg),
         "C02" => c02::run(cfg),
+        "C03" => c03::run(cfg),
         "C05" => c05::run(cfg),
         "C10" => c10::run(cfg),
         "C14" => c14::run(cfg),
@@ -34,6 +36,7 @@ pub fn replay(prop: &str, cfg: &Cfg, case: &Value) -> Vec<Violation> {
     match prop {
         "C01" => c01::replay(cfg, case),
         "C02" => c02::replay(cfg, case),
+        "C03" => c03::replay(cfg, case),
         "C05" => c05::replay(cfg, case),
         "C10" => c10::replay(cfg, case),
         "C14" => c14::replay(cfg, case),
